@@ -212,8 +212,22 @@ impl<'a> Item<'a> {
     /// really use the handle: read every component / bump every component
     fn touch(&mut self) -> u64 {
         match self {
-            Item::Ent(e) => (&**e).join().count() as u64,
-            Item::Lazy(_) => 0,
+            // really use the shared handles, as systems do: creations and deletion requests through the entities
+            // resource (the free list is not empty, see `populate`), and queued lazy updates
+            Item::Ent(e) => {
+                let n = (&**e).join().count() as u64;
+                for _ in 0..8 {
+                    let x = e.create();
+                    let _ = e.delete(x);
+                }
+                n
+            }
+            Item::Lazy(l) => {
+                for _ in 0..24 {
+                    l.exec(|_| {});
+                }
+                0
+            }
             Item::R0(s) => touch_read!(&*s),
             Item::R1(s) => touch_read!(&*s),
             Item::R2(s) => touch_read!(&*s),
@@ -446,6 +460,8 @@ fn new_world() -> World {
 }
 
 fn populate(world: &mut World) {
+    // some indices on the free list from the start
+    let spare: Vec<Entity> = (0..12).map(|_| world.create_entity().build()).collect();
     for k in 0..24u32 {
         let mut b = world.create_entity();
         if k % 2 == 0 { b = b.with(C0(k)); }
@@ -456,6 +472,8 @@ fn populate(world: &mut World) {
         if k % 7 < 3 { b = b.with(C5(k)); }
         b.build();
     }
+    world.delete_entities(&spare).unwrap();
+    world.maintain();
 }
 
 fn probe_res<T: Resource>(w: &World) -> i64 {
